@@ -435,9 +435,14 @@ impl<CS: BbsCiphersuite> PoKSignature<BBSplus<CS>> {
 
         let indexes = disclosed_indexes
             .iter()
-            .copied()
-            .chain(disclosed_commitment_indexes.iter().map(|j| j + L + 1))
-            .collect::<Vec<_>>();
+            .map(|&i| Some(i))
+            .chain(
+                disclosed_commitment_indexes
+                    .iter()
+                    .map(|j| j.checked_add(L + 1)),
+            )
+            .collect::<Option<Vec<_>>>()
+            .ok_or_else(|| Error::PoKSVerificationError("Invalid disclosed indexes".to_owned()))?;
 
         core_proof_verify::<CS>(
             pk,
